@@ -166,6 +166,39 @@ def run(ctx):
                             fnd = F_NUL
                         ctx.fail({'extra': tag, 'rex': rex, 'via_file': via_file, 'repair': repair, 'detect': detect}, r[0],
                                  finding=fnd)
+        # ---- a frame that is checked, then EDITED (an object column re-populated with objects of another kind, in the
+        # frame itself and in a copy / slice of it) and checked again: what is discovered from the edited frame verifies
+        # on it - nothing remembered from the first pass gets in the way
+        import datetime as _dt
+        import pandas as pd
+        from tdda.constraints import discover_df
+        kinds_ = {'text': lambda k: ['2020-01-%02d' % (j + 1) for j in range(k)],
+                  'yn': lambda k: ['Y' if j % 2 else 'N' for j in range(k)],
+                  'dates': lambda k: [_dt.date(2020, 1, j + 1) for j in range(k)],
+                  'bools': lambda k: [None if j == 1 else bool(j % 2) for j in range(k)]}
+        for it in range(10 if ctx.quick else 150):
+            k = rng.randint(3, 6)
+            first, second = rng.sample(sorted(kinds_), 2)
+            df = pd.DataFrame({'id': list(range(k)), 'v': pd.Series(kinds_[first](k), dtype=object)})
+            case = {'scenario': 'frame edited between passes', 'column_v_first': first, 'then': second, 'rows': k}
+            ctx.count(repr(case) + str(it), True)
+            ctx.bump('edited_frame')
+            with contextlib.redirect_stderr(io.StringIO()), contextlib.redirect_stdout(io.StringIO()):
+                try:
+                    discover_df(df, inc_rex=False)
+                except Exception:
+                    pass
+            how = rng.choice(['in place', 'copy', 'slice'])
+            df2 = df if how == 'in place' else df.copy() if how == 'copy' else df.iloc[:k]
+            if how == 'slice':
+                df2 = df2.copy()
+            df2['v'] = pd.Series(kinds_[second](k), dtype=object, index=df2.index)
+            fresh = pd.DataFrame({'id': list(range(k)), 'v': pd.Series(kinds_[second](k), dtype=object)})
+            for rex in (False,):
+                r_edit = run_one(ctx, df2, case, rex, False, False, False, work)
+                r_fresh = run_one(ctx, fresh, case, rex, False, False, False, work)
+                if r_edit is not None and r_fresh is None:
+                    ctx.fail(dict(case, how=how), 'after the edit (%s): %s; the same data in a new frame passes' % (how, r_edit[0]))
     finally:
         shutil.rmtree(work, ignore_errors=True)
     ctx.cov['rule'] = ('frames as in C07 x {rex off, on} x {dict, .tdda file} x {verify, detect} x {repair on, off}; '
